@@ -27,8 +27,12 @@ namespace
 template<typename PointType>
 void flipNormalTowardOriginCoordinate(const PointType & point, PointType & normal)
 {
-  if (normal.dot(point / point.norm()) > 0) {
-    normal *= -1;
+  // Only the cartesian parts take part in the orientation test and in the flip: the last
+  // entry of an homogeneous vector (w) is not a component of the direction.
+  constexpr int DIM = romea::core::PointTraits<PointType>::DIM;
+  const auto cartesianPoint = point.template head<DIM>();
+  if (normal.template head<DIM>().dot(cartesianPoint / cartesianPoint.norm()) > 0) {
+    normal.template head<DIM>() *= -1;
   }
 }
 
